@@ -46,5 +46,21 @@ pub mod stdx {
     pub assume_specification<T, F: FnOnce() -> Option<T>> [ Option::<T>::or_else ] (o: Option<T>, f: F) -> (r: Option<T>)
         requires o is None ==> f.requires(()),
         ensures o is Some ==> r == o, o is None ==> f.ensures((), r);
+
+    /// lexicographic byte order of strings: only totality-free facts are used (antisymmetry)
+    pub uninterp spec fn str_ord(a: Seq<char>, b: Seq<char>) -> std::cmp::Ordering;
+    pub broadcast proof fn axiom_str_ord_antisym(a: Seq<char>, b: Seq<char>)
+        ensures (#[trigger] str_ord(a, b) != std::cmp::Ordering::Greater && #[trigger] str_ord(b, a) != std::cmp::Ordering::Greater) ==> a == b
+    { admit(); }
+    pub assume_specification [ <str as Ord>::cmp ] (a: &str, b: &str) -> (r: std::cmp::Ordering)
+        ensures r == str_ord(a@, b@);
+    pub assume_specification [ <String as Ord>::cmp ] (a: &String, b: &String) -> (r: std::cmp::Ordering)
+        ensures r == str_ord(a@, b@);
+    pub assume_specification<T, F: FnMut(&T, &T) -> std::cmp::Ordering> [ <[T]>::sort_by ] (s: &mut [T], f: F)
+        ensures final(s)@.to_multiset() == old(s)@.to_multiset(),
+                final(s)@.len() == old(s)@.len(),
+                forall|x: T| #[trigger] final(s)@.contains(x) <==> old(s)@.contains(x),
+                old(s)@.no_duplicates() ==> final(s)@.no_duplicates(),
+                forall|i: int, j: int| #![trigger final(s)@[i], final(s)@[j]] 0 <= i < j < final(s)@.len() ==> exists|o: std::cmp::Ordering| #[trigger] f.ensures((&final(s)@[i], &final(s)@[j]), o) && o != std::cmp::Ordering::Greater;
 }
 } // verus!
